@@ -69,7 +69,7 @@ def anon_quads(anon, quad_fmt):
     return out
 
 
-def write_doc(fmt, quads, anon=(), xmlbase=False):
+def write_doc(fmt, quads, anon=(), xmlbase=False, formulas=()):
     """quads: list of [s, p, o, gname]; triple formats ignore gname (caller passes None). anon: nodes written without a label where the
     syntax has a form for that ([ ... ], a node element without rdf:about / rdf:nodeID, a node object without @id), first in the
     document, so that documents of one shape have them at the same line and column; elsewhere they are the labels anon<k>."""
@@ -81,7 +81,9 @@ def write_doc(fmt, quads, anon=(), xmlbase=False):
         body = " ; ".join(f"{nt_term(p)} {nt_term(o)}" for p, o in a["props"])
         return f"[ {body} ]" if not a["ref"] else f"{nt_term(a['ref'][0])} {nt_term(a['ref'][1])} [ {body} ]"
     if fmt in ("nt", "turtle", "n3"):
-        return "".join(bracket(a) + " .\n" for a in anon) + "".join(f"{nt_term(s)} {nt_term(p)} {nt_term(o)} .\n" for s, p, o, g in quads)
+        # (Notation3 only: quoted formulae, each a node of its own that stands as the subject of one statement)
+        quoted = "".join(f"{{ {nt_term(f[0][0])} {nt_term(f[0][1])} {nt_term(f[0][2])} }} {nt_term(f[1])} {nt_term(f[2])} .\n" for f in formulas) if fmt == "n3" else ""
+        return "".join(bracket(a) + " .\n" for a in anon) + quoted + "".join(f"{nt_term(s)} {nt_term(p)} {nt_term(o)} .\n" for s, p, o, g in quads)
     if fmt == "nquads":
         return "".join(f"{nt_term(s)} {nt_term(p)} {nt_term(o)}" + (f" {nt_term(gname_term(g))}" if g else "") + " .\n" for s, p, o, g in quads)
     if fmt == "trig":
@@ -214,11 +216,15 @@ def run(case):
                 anon = [a for a in anon if a["g"] is not None]
             written, wanon = quads, anon
             quads = quads + anon_quads(anon, quad_fmt)
+            # a quoted formula is a node of its own per document, like an anonymous blank node (only the statement about it is in the
+            # graph; what it quotes lives in a context of its own)
+            formulas = doc.get("formulas") or [] if (fmt == "n3" and not is_ds) else []
+            quads = quads + [[["b", f"formula{k}"], f[1], f[2], None] for k, f in enumerate(formulas)]
             if not quads:
                 continue
             labels = {t[1] for q in quads for t in q[:3] if t[0] == "b"} | {q[3][2:] for q in quads if q[3] and q[3].startswith("_:")}
             reuse = bool(labels & seen_labels)
-            text = write_doc(fmt, written, wanon, xmlbase=bool(doc.get("xmlbase")))
+            text = write_doc(fmt, written, wanon, xmlbase=bool(doc.get("xmlbase")), formulas=formulas)
             if K.skip("C12-hext-labels-kept-verbatim", fmt == "hext" and bool(labels), out):
                 continue
             old = content(target)
@@ -280,7 +286,10 @@ def strategy(tier):
     anon = st.fixed_dictionaries({"props": st.lists(st.tuples(pred, term_o).map(list), min_size=1, max_size=2, unique_by=repr),
                                   "ref": st.one_of(st.none(), st.tuples(term_s, pred).map(list)), "g": st.sampled_from(GNAMES)})
     doc = st.fixed_dictionaries({"fmt": st.sampled_from(TRIPLE_FMTS + QUAD_FMTS), "quads": st.lists(quad, min_size=1, max_size=5, unique_by=repr),
-                                 "anon": st.one_of(st.just([]), st.lists(anon, min_size=1, max_size=2)), "xmlbase": st.booleans()})
+                                 "anon": st.one_of(st.just([]), st.lists(anon, min_size=1, max_size=2)), "xmlbase": st.booleans(),
+                                 "formulas": st.one_of(st.just([]), st.just([]), st.lists(st.tuples(
+                                     st.tuples(st.sampled_from(IRIS).map(lambda i: ["u", i]), pred, st.sampled_from(IRIS).map(lambda i: ["u", i])).map(list),
+                                     st.just(["u", "http://ex.org/says"]), st.sampled_from(IRIS).map(lambda i: ["u", i])).map(list), min_size=1, max_size=2))})
     return st.fixed_dictionaries({"target": st.sampled_from(["graph", "dataset", "dataset", "dataset-graph"]), "pre_named": st.booleans(), "docs": sized_lists(doc, 1, 4)})
 
 
